@@ -29,10 +29,10 @@ VALUES: dict[str, list[str]] = {
     'bugs': ['saio'],
     'events': ['ping', 'scte35', 'ping,scte35', 'scte35,ping'],
     'failures': ['1', '3', '0'],
-    'verr': ['404=5', '503=7,504=9'],
+    'verr': ['404=5', '503=7,504=9', '404=3,404=5'],
     'aerr': ['404=5'],
-    'terr': ['410=2'],
-    'merr': ['503=2'],
+    'terr': ['410=2', '404=3,404=5'],
+    'merr': ['503=2', '503=2,404=3,503=4'],
     'vcorrupt': ['11:59:50Z'],
     'frames': ['2', '0'],
     'clearkey__la_url': ['https://ck.test/lic?a=1&b=2', 'https://ck.test/p%20q/#frag', 'https://ck.test/a+b=c', 'https://ck.test/license?sig=ab%2Bcd%2F9'],
